@@ -175,15 +175,30 @@ Inductive routing :=
 | RToDriver                            (* destination org.freedesktop.DBus: see the handle_* functions *)
 | RRejected                            (* unknown message type: bus_context_check_security_policy refuses it
                                           ("Message bus will not accept messages of unknown type"), nobody gets a copy *)
+| RRefusedFds                          (* the message carries unix fds and the ADDRESSED recipient cannot receive them:
+                                          NotSupported error, bus_dispatch_matches returns before matching anyone *)
 | RDelivered (rcpts : list conn).      (* addressed recipient first (if any), then the match recipients *)
 
-Definition dispatch (ns : names) (mk : mm) (c : conn) (m : msg) : option routing :=
+(* dbus_message_contains_unix_fds (message) && !dbus_connection_can_send_type (connection, DBUS_TYPE_UNIX_FD):
+   [caps] = the connections that negotiated fd passing, [nfds] = the UNIX_FDS count of the message *)
+Definition fd_ok (caps : list conn) (nfds : N) (c : conn) : bool := (nfds =? 0) || existsb (N.eqb c) caps.
+
+(* the recipient loop of bus_dispatch_matches with send_one_message: a recipient that cannot take the fds
+   is skipped ("return TRUE; don't send it but don't return an error either") and the loop goes on with the
+   next one; only out-of-memory (not modelled) stops it *)
+Fixpoint fan_out (caps : list conn) (nfds : N) (rcpts : list conn) : list conn :=
+  match rcpts with
+  | [] => []
+  | d :: rest => if fd_ok caps nfds d then d :: fan_out caps nfds rest else fan_out caps nfds rest
+  end.
+
+Definition dispatch (ns : names) (mk : mm) (caps : list conn) (c : conn) (m : msg) (nfds : N) : option routing :=
   match m_dest m with
   | None =>
       if m_type m =? DBUS_MESSAGE_TYPE_SIGNAL then
         match get_recipients ns mk (Some c) None m with
         | None => None
-        | Some l => Some (RDelivered l)
+        | Some l => Some (RDelivered (fan_out caps nfds l))
         end
       else Some RNotDispatched
   | Some d =>
@@ -192,9 +207,10 @@ Definition dispatch (ns : names) (mk : mm) (c : conn) (m : msg) : option routing
       | None => Some RNoOwner
       | Some a =>
           if negb (valid_type (m_type m)) then Some RRejected else
+          if negb (fd_ok caps nfds a) then Some RRefusedFds else
           match get_recipients ns mk (Some c) (Some a) m with
           | None => None
-          | Some l => Some (RDelivered (a :: l))
+          | Some l => Some (RDelivered (a :: fan_out caps nfds l))
           end
       end
   end.
@@ -222,7 +238,7 @@ Definition driver_call (member : bytes) (args : list marg) : msg :=
 Definition after_driver_call (ns : names) (mk : mm) (c : conn) (m : msg) : option (list conn) :=
   get_recipients ns mk (Some c) None m.
 
-Record world := mkWorld { w_mm : mm; w_names : names }.
+Record world := mkWorld { w_mm : mm; w_names : names; w_caps : list conn (* negotiated NEGOTIATE_UNIX_FD *) }.
 
 Definition unique_of (ns : names) (c : conn) : bytes :=
   match find (fun p => (snd p =? c) && starts_with_colon (fst p)) ns with
@@ -231,11 +247,11 @@ Definition unique_of (ns : names) (c : conn) : bytes :=
   end.
 
 Inductive event :=
-| EvHello (c : conn) (unique : bytes)
+| EvHello (c : conn) (unique : bytes) (fdcap : bool)
 | EvOwn (c : conn) (name : bytes)              (* RequestName on a name nobody owns *)
 | EvAdd (c : conn) (text : bytes)
 | EvRemove (c : conn) (text : bytes)
-| EvSend (c : conn) (m : msg)
+| EvSend (c : conn) (m : msg) (nfds : N)
 | EvDisconnect (c : conn).
 
 Inductive output :=
@@ -266,14 +282,15 @@ Fixpoint release_all (ns : names) (mk : mm) (unique : bytes) (l : list bytes) (a
 (* None = the daemon performed an out-of-bounds read (Fault) while handling the event *)
 Definition step (limit : N) (w : world) (e : event) : option (world * output) :=
   match e with
-  | EvHello c unique =>
+  | EvHello c unique fdcap =>
       let ns := w_names w ++ [(unique, c)] in
+      let caps := if fdcap then c :: w_caps w else w_caps w in
       match driver_broadcast ns (w_mm w) (name_owner_changed unique [] unique) with
       | None => None
       | Some rc =>
           match after_driver_call ns (w_mm w) c (driver_call S_Hello []) with
           | None => None
-          | Some _ => Some (mkWorld (w_mm w) ns, OSignal rc)
+          | Some _ => Some (mkWorld (w_mm w) ns caps, OSignal rc)
           end
       end
   | EvOwn c name =>
@@ -283,7 +300,7 @@ Definition step (limit : N) (w : world) (e : event) : option (world * output) :=
       | Some rc =>
           match after_driver_call ns (w_mm w) c (driver_call S_RequestName [AStr name; AOther]) with
           | None => None
-          | Some _ => Some (mkWorld (w_mm w) ns, OSignal rc)
+          | Some _ => Some (mkWorld (w_mm w) ns (w_caps w), OSignal rc)
           end
       end
   | EvAdd c text =>
@@ -292,9 +309,9 @@ Definition step (limit : N) (w : world) (e : event) : option (world * output) :=
       | RepOk =>
           match after_driver_call (w_names w) mk' c (driver_call S_AddMatch [AStr text]) with
           | None => None
-          | Some _ => Some (mkWorld mk' (w_names w), OReply rep)
+          | Some _ => Some (mkWorld mk' (w_names w) (w_caps w), OReply rep)
           end
-      | _ => Some (mkWorld mk' (w_names w), OReply rep)
+      | _ => Some (mkWorld mk' (w_names w) (w_caps w), OReply rep)
       end
   | EvRemove c text =>
       let (mk', rep) := handle_remove_match (w_mm w) c text in
@@ -302,12 +319,12 @@ Definition step (limit : N) (w : world) (e : event) : option (world * output) :=
       | RepOk =>
           match after_driver_call (w_names w) mk' c (driver_call S_RemoveMatch [AStr text]) with
           | None => None
-          | Some _ => Some (mkWorld mk' (w_names w), OReply rep)
+          | Some _ => Some (mkWorld mk' (w_names w) (w_caps w), OReply rep)
           end
-      | _ => Some (mkWorld mk' (w_names w), OReply rep)
+      | _ => Some (mkWorld mk' (w_names w) (w_caps w), OReply rep)
       end
-  | EvSend c m =>
-      match dispatch (w_names w) (w_mm w) c m with
+  | EvSend c m nfds =>
+      match dispatch (w_names w) (w_mm w) (w_caps w) c m nfds with
       | None => None
       | Some r => Some (w, ORouting r)
       end
@@ -316,6 +333,6 @@ Definition step (limit : N) (w : world) (e : event) : option (world * output) :=
       let mk' := handle_disconnect (w_mm w) c unique in
       match release_all (w_names w) mk' unique (released_names (w_names w) c) [] with
       | None => None
-      | Some (ns', l) => Some (mkWorld mk' ns', OSignals l)
+      | Some (ns', l) => Some (mkWorld mk' ns' (w_caps w), OSignals l)
       end
   end.
